@@ -506,7 +506,7 @@ pub fn c07(tier: Tier) -> ! {
     let mut jobs = vec![];
     for n in 2..=3usize {
         for &(steps, inner) in steps_grid(tier).iter() {
-            for &(kt, fin, ratio) in [(0., None, Some(0.)), (0., None, Some(0.5)), (0.1, None, Some(0.)), (1., None, Some(0.5)), (0.5, Some(0.05), None), (1e-3, None, None), (f64::INFINITY, None, Some(0.)), (-1., None, Some(0.)), (1., None, Some(1.)), (0.5, Some(0.), None)].iter() {
+            for &(kt, fin, ratio) in [(0., None, Some(0.)), (0., None, Some(0.5)), (0.1, None, Some(0.)), (1., None, Some(0.5)), (0.5, Some(0.05), None), (1e-3, None, None), (f64::INFINITY, None, Some(0.)), (-1., None, Some(0.)), (1., None, Some(1.)), (0.5, Some(0.), None), (0., None, Some(f64::NEG_INFINITY))].iter() {
                 for (pi, pat) in patterns().into_iter().enumerate() {
                     if tier == Tier::Quick && (pi + n + steps as usize) % 2 == 1 {
                         continue;
